@@ -48,6 +48,41 @@ func sliverSet() []ipt {
 	return []ipt{{0, 0}, {10, 16}, {200, 0}, {4, 4}, {180, -1}, {100, 3}, {60, -3}, {150, 9}}
 }
 
+// witnessSet: eight points in general position on which the simplifier is
+// known to go through a two-step back-off (a shortcut rejected because it
+// crosses a later segment, the next shorter shortcut crossing the segment just
+// handed back to the remainder). Explored over every injective sequence.
+func witnessSet() []ipt {
+	return []ipt{{16, 16}, {4, 18}, {8, 13}, {15, 7}, {11, 0}, {4, 8}, {3, 18}, {11, 4}}
+}
+
+var witnessTols = []float64{2, 5, 9.5, 14, 25}
+
+// injective calls f with every sequence of l distinct indices below n (the
+// slice is reused).
+func injective(n, l int, f func(seq []int)) {
+	seq := make([]int, 0, l)
+	var used uint64
+	var rec func()
+	rec = func() {
+		if len(seq) == l {
+			f(seq)
+			return
+		}
+		for i := 0; i < n; i++ {
+			if used&(1<<uint(i)) != 0 {
+				continue
+			}
+			used |= 1 << uint(i)
+			seq = append(seq, i)
+			rec()
+			seq = seq[:len(seq)-1]
+			used &^= 1 << uint(i)
+		}
+	}
+	rec()
+}
+
 var sliverDivs = []float64{1, 256, 65536}
 var sliverTols = []float64{8, 20, 60, 1e9}
 
@@ -307,6 +342,28 @@ func enumerate(visit func(idx int64, mk func() Case)) {
 			}
 		}
 	}
+	// injective sequences (a simple line never repeats a vertex): the witness
+	// set to its full length 8, the main point set at length 7 (thorough 8)
+	for l := 3; l <= 8; l++ {
+		injective(len(witnessSet()), l, func(seq []int) {
+			for _, tol := range witnessTols {
+				tol := tol
+				emit(func() Case { return Case{Kind: "line-witness", Seq: append([]int{}, seq...), Tol: tol} })
+			}
+		})
+	}
+	injMax := 7
+	if tier == "thorough" {
+		injMax = 8
+	}
+	for l := 7; l <= injMax; l++ {
+		injective(len(ps), l, func(seq []int) {
+			for _, tol := range []float64{40, 100, 150} {
+				tol := tol
+				emit(func() Case { return Case{Kind: "line", Seq: append([]int{}, seq...), Tol: tol} })
+			}
+		})
+	}
 	// integer grid family (not in general position): 4x4, length <= 4
 	for l := 0; l <= 4; l++ {
 		total := 1
@@ -394,10 +451,12 @@ func lenClass(n int) string {
 func execute(c Case) (string, string, bool) {
 	ps := pointSet()
 	switch c.Kind {
-	case "line", "grid-line", "line-small", "line-tiny", "line-sliver":
+	case "line", "grid-line", "line-small", "line-tiny", "line-sliver", "line-witness":
 		li := make([]ipt, len(c.Seq))
 		if c.Kind == "line-sliver" {
 			ps = sliverSet()
+		} else if c.Kind == "line-witness" {
+			ps = witnessSet()
 		}
 		for i, k := range c.Seq {
 			if c.Kind != "grid-line" {
@@ -569,7 +628,7 @@ func main() {
 	}
 	os.Setenv("VERIF_TIER", tier)
 	// general position is a precondition of the simplicity clause
-	for _, ps := range [][]ipt{pointSet(), sliverSet()} {
+	for _, ps := range [][]ipt{pointSet(), sliverSet(), witnessSet()} {
 		for i := range ps {
 			for j := i + 1; j < len(ps); j++ {
 				for k := j + 1; k < len(ps); k++ {
@@ -581,7 +640,7 @@ func main() {
 		}
 	}
 	r := report.New("C13", tier, "model_checking")
-	r.Rule = "E1 (isolated workers, 2 GiB address-space limit, 60 s silence horizon): every vertex sequence of length 0..6 (thorough: over 16 points) over a 12-point set with no three points collinear (verified exactly) x tolerances {0,40,100,150,300,1e9}; every sequence of length 3..5 over the same point set scaled by 1e-3 and by 1e-5 x 3 scaled tolerances each; every sequence of length 3..6 over an 8-point sliver set (flat triangles, 1..5 degree crossings; no three collinear) at the exact scales 1, 2^-8, 2^-16 x 4 tolerances; every sequence of length <= 4 over the plain 4x4 integer grid x 4 tolerances (termination / subsequence / tolerance clauses only); 7 polygons (holes, unclosed, degenerate rings) x 6 tolerances and all ordered pairs as MultiPolygon; two-member MultiLineStrings. Oracle: terminates; output is an order-preserving subsequence keeping first and last vertex; an embedding exists in which every dropped vertex is within tol of its replacing segment; exactly simple input => exactly simple output; input unchanged; multi members equal the member simplified alone. Non-trivial = calls that drop at least one vertex."
+	r.Rule = "E1 (isolated workers, 2 GiB address-space limit, 60 s silence horizon): every vertex sequence of length 0..6 (thorough: over 16 points) over a 12-point set with no three points collinear (verified exactly) x tolerances {0,40,100,150,300,1e9}; every sequence of length 3..5 over the same point set scaled by 1e-3 and by 1e-5 x 3 scaled tolerances each; every sequence of length 3..6 over an 8-point sliver set (flat triangles, 1..5 degree crossings; no three collinear) at the exact scales 1, 2^-8, 2^-16 x 4 tolerances; every injective sequence of length 3..8 over an 8-point witness set (two-step back-offs) x 5 tolerances and of length 7 (thorough 8) over the main set x 3 tolerances; every sequence of length <= 4 over the plain 4x4 integer grid x 4 tolerances (termination / subsequence / tolerance clauses only); 7 polygons (holes, unclosed, degenerate rings) x 6 tolerances and all ordered pairs as MultiPolygon; two-member MultiLineStrings. Oracle: terminates; output is an order-preserving subsequence keeping first and last vertex; an embedding exists in which every dropped vertex is within tol of its replacing segment; exactly simple input => exactly simple output; input unchanged; multi members equal the member simplified alone. Non-trivial = calls that drop at least one vertex."
 	sum := fault.Sweep(r, 16, 2<<20, 60*time.Second, func(idx int64) (string, interface{}) {
 		var sig string
 		var det interface{}
